@@ -271,11 +271,14 @@ def nullRecv (F : Facts18) (s : Sig) (pos : List Val) (kw : List (String × Val)
 
 /-! ## Application.process_request (application.py:162-226) -/
 
+/-- application.py:177-181: "out object is always a sequence of return values" -/
+def wrapOut (F : Facts18) (s : Sig) (r : Val) : Val :=
+  if s.bodyStyle != .wrapped || s.outLen ≤ F.wrapUpTo then .seq [r] else r
+
 /-- `ctx.out_object` after the call, or the fault stored in `ctx.out_error` -/
 def process (F : Facts18) (s : Sig) (impl : List Val → Result) (recv : List Val) : Res Val :=
   match impl recv with
-  | .value r =>
-    .ok (if s.bodyStyle != .wrapped || s.outLen ≤ F.wrapUpTo then .seq [r] else r)
+  | .value r => .ok (wrapOut F s r)
   | .fault c => .fault c
   | .error => .fault "Server"
 
@@ -415,5 +418,39 @@ def wireView (s : Sig) : Res Val → Res Val
   | .ok (.ignored _) => .ok (emptyReply s)
   | .ok (.gen xs) => .ok (.seq xs)
   | r => r
+
+/-! ## Conformance (the hypotheses of the property) -/
+
+def Val.isIgnored : Val → Bool
+  | .ignored _ => true
+  | _ => false
+
+/-- a value survives the protocol (C01/C02 establish this for the conformant values of a type) -/
+def Survives (τ : Val → Val) (v : Val) : Prop := xfer τ v = v
+
+/-- the user function returns what the signature declares, and what it returns survives the
+    protocol: an `Ignored`; for two or more declared return values a sequence of exactly that
+    many plain values; nothing in particular when nothing is declared; otherwise one value
+    (a generator stands for the sequence of its items) -/
+def ResultOk (τ : Val → Val) (s : Sig) (r : Val) : Prop :=
+  r.isIgnored = true ∨
+  (r.isIgnored = false ∧
+    (if s.style = .wrapped ∧ 2 ≤ s.outLen then
+       ∃ vs, r = .seq vs ∧ vs.length = s.outLen ∧ ∀ v ∈ vs, v.isIgnored = false ∧ Survives τ v
+     else s.noReturn = true ∨ xfer τ r = norm r))
+
+def ProgramOk (τ : Val → Val) (s : Sig) (impl : List Val → Result) : Prop :=
+  ∀ recv r, impl recv = .value r → ResultOk τ s r
+
+/-- no keyword argument is `None` (the stated asymmetry: `NullServer` lets a positional value
+    stand when the keyword value is `None`, Python binding and the wire do not) -/
+def KwOk (F : Facts18) (kw : List (String × Val)) : Prop :=
+  F.kwNoneSkipped = false ∨ ∀ p ∈ kw, p.2.isNone = false
+
+/-- conformant call: not more positional arguments than declared, every transmitted value
+    survives the protocol -/
+def CallOk (τ : Val → Val) (s : Sig) (pos : List Val) (kw : List (String × Val)) : Prop :=
+  (∀ keys, s.inKeys = some keys → pos.length ≤ keys.length) ∧
+  (∀ v ∈ pos, Survives τ v) ∧ (∀ p ∈ kw, Survives τ p.2)
 
 end SpyneModel.Null
